@@ -327,6 +327,8 @@ func cmdDiffDrive12(args []string) error {
 		pool = append(pool, r["file"].(string))
 	}
 	results := make([][]obj, len(cases))
+	startGuard()
+	defer reportRunaway()
 	var wg sync.WaitGroup
 	sem := make(chan struct{}, *jobs)
 	for i := range cases {
@@ -335,6 +337,9 @@ func cmdDiffDrive12(args []string) error {
 		go func(i int) {
 			defer wg.Done()
 			defer func() { <-sem }()
+			if aborted() {
+				return
+			}
 			c := cases[i]["c"].(obj)
 			ii := int(mustFloat(c["i"])) - 1
 			jj := int(mustFloat(c["j"])) - 1
